@@ -273,6 +273,10 @@ func (c *Decoder) decodeBoolean(frame *Frame) (*ast.Boolean, error) {
 		return nil, errors.WithStack(err)
 	}
 
+	if len(buf) < 1 {
+		return nil, decodeError(fmt.Errorf("BOOL_VALUE frame must have 1 byte but got %d", len(buf)))
+	}
+
 	return &ast.Boolean{
 		Value: buf[0] == 0x01,
 	}, nil
